@@ -1,8 +1,13 @@
 """C14 — over_time equals independent per-step computation, correctly ordered.
 
 Proof side: Model/Table.lean (hand-written, literal after time.py) and the
-theorems of Props/C14.lean (per_step, estimates, sorted_together,
-split_invariance, single row / temporal keys).
+theorems of Props/C14.lean: per_step / per_step_builtin / no_leakage (T1),
+estimates / scalar_keys (T2), sorted_together_partial + the witness theorem
+sorted_together_full_is_false + nothing_new_returns_input (T3),
+split_invariance / split_of_sequence + split_any_order_is_false (T4),
+single_row, temporal_key_* (T5).  The split theorem covers consecutive splits
+of vars ++ estimates; the pattern "every call passes all estimates" is not
+covered by a theorem and is checked here by correspondence and the oracle.
 
 Tie B (correspondence): the real `aurel.over_time` is run on small grids with
 per-row inputs that differ in every row, rows in random order, every choice
@@ -125,9 +130,9 @@ def input_cell(N, col, j, tval=None):
         K[0, 2] = K[2, 0] = 0.01 * (j + 1) * np.cos(0.6 * x)
         return K
     if col == "alpha":
-        return 1 + 0.07 * j + 0.01 * np.sin(x + j)
+        return 1.0137 + 0.07 * j + 0.01 * np.sin(x + j + 0.3)
     if col == "rho":
-        return 0.5 + 0.11 * j + 0.02 * np.cos(y)
+        return 0.5171 + 0.11 * j + 0.02 * np.cos(y + 0.2)
     if col == "betaup3":
         return np.array([0.01 * (j + 1) * np.sin(0.5 * y), 0.02 * np.cos(0.3 * z + j), 0.0 * x + 0.003 * (j + 1)])
     if col == "mass":
@@ -476,7 +481,15 @@ def gen_scenario(rng, tier, force=None):
         domain = False
     seq = [("v", i) for i in vars_all] + [("e", i) for i in ests_all]
     ncalls = rng.choice((1, 2, 2, 3))
-    if domain:
+    style = "free"
+    if domain and rng.random() < 0.3:
+        # every call passes the complete estimates list, the variables are cut consecutively
+        # (the usage of tests/test_over_time.py); not covered by the split theorem, checked by the oracle
+        style = "all_ests_each_call"
+        cuts = sorted(rng.randrange(0, len(vars_all) + 1) for _ in range(ncalls - 1))
+        calls = [{"vars": vars_all[a:b], "ests": list(ests_all)} for a, b in zip([0] + cuts, cuts + [len(vars_all)])]
+    elif domain:
+        style = "consecutive"
         cuts = sorted(rng.randrange(0, len(seq) + 1) for _ in range(ncalls - 1))
         segs = [seq[a:b] for a, b in zip([0] + cuts, cuts + [len(seq)])]
         calls = [{"vars": [i for k, i in s if k == "v"], "ests": [i for k, i in s if k == "e"]} for s in segs]
@@ -490,7 +503,7 @@ def gen_scenario(rng, tier, force=None):
             for c in calls:
                 c["ests"] = list(ests_all)
     sc = {"N": N, "order": order, "cols": cols, "tvals": tvals, "kwargs": kwargs, "calls": calls,
-          "vars_all": vars_all, "ests_all": ests_all, "domain": domain}
+          "vars_all": vars_all, "ests_all": ests_all, "domain": domain, "style": style}
     finish_scenario(sc)
     return sc
 
@@ -768,7 +781,7 @@ def correspondence(ctx, scs, label):
                             break
         for key in ("rows=%d" % len(sc["order"]), "calls=%d" % len(sc["calls"]),
                     "temporal=" + "+".join(c for c in sc["cols"] if c in sc["tvals"]),
-                    "domain" if sc["domain"] else "free",
+                    "split=" + sc.get("style", "fixed"),
                     "ties" if any(len(set(v)) < len(v) for v in sc["tvals"].values()) else "distinct",
                     "kwargs=" + "+".join(sorted(sc["kwargs"]))):
             dist[key] = dist.get(key, 0) + 1
@@ -838,7 +851,7 @@ def run(ctx):
     if ctx.tier == "thorough":
         ctx.leanchecker([MODULE])
     # 4. correspondence
-    n_sc = ctx.budget(300, 3000)
+    n_sc = ctx.budget(300, 5000)
     scs = [gen_scenario(ctx.rng, ctx.tier) for _ in range(n_sc)]
     results, bad = correspondence(ctx, scs, "random scenarios")
     correspondence(ctx, error_scenarios(), "malformed tables")
@@ -891,7 +904,7 @@ def replay(ctx, obj):
 
 MANIFEST = {
     "category": "proof",
-    "technique": "Lean 4 theorems over a hand-written executable model of over_time/process_single_timestep (association-list tables, abstract per-row calc/est), tied to the real code by canonical-table correspondence with per-row distinct inputs and tagged custom functions",
-    "text": "Proof for all tables (any number of rows, any row order, any columns) and all request lists: every stored cell of a requested variable is the per-step function of that row's own dictionary (no other row occurs), every estimate column is the estimator applied row by row to its scalar column, output rows are the input rows stably sorted by the last-present temporal key with all columns permuted by the same permutation and input columns preserved, and every consecutive split of vars ++ estimates into successive calls yields the one-call table (under explicit hypotheses: distinct names, cache transparency of fed-back columns = C01). The model is tied to aurel.over_time by comparing, cell by cell and in dict order, canonical identity tables on random scenarios (1-7 rows, shuffled, ties, all temporal-key combinations, built-in and tagged custom variables/estimators, 1-3 calls).",
-    "note": "Trusted: Lean kernel + propext/Classical.choice/Quot.sound; the hand-written model Model/Table.lean (validated by correspondence); what AurelCore computes inside one step is abstract (C01-C10). Two statements are false in full generality and are proven so from witnesses replayed on the real code: estimates requested in an earlier call than a variable do not cover that variable; a call with nothing new returns the table unsorted.",
+    "technique": "Lean 4 theorems over a hand-written executable model of over_time/process_single_timestep (association-list tables, abstract per-row comp/cust/est functions, stable insertion sort), tied to the real code by canonical-table correspondence with per-row distinct inputs and tagged custom functions",
+    "text": "Proof for all tables (any number n >= 1 of rows, any row order, any columns) and all request lists: every stored cell of a requested variable is rel[v] of an AurelCore whose data is a function of that row's own dictionary (no other row occurs; stated also as non-interference between tables that agree on one row); every new estimate column k_e is the estimator applied row by row to column k, for input and computed scalars alike; when the call computes anything, the output is the column view of the input rows stably sorted by the last-present temporal key (Perm + Pairwise + stability), every row processed on its own, so all columns are permuted together and input columns are preserved cell by cell; every consecutive split of vars ++ estimates into successive calls returns exactly the one-call table (column order included) under explicit hypotheses (distinct variable names that are not temporal names, estimators return scalars, array rank constant per column, strict weak order on the temporal cells, and the C01 hypothesis FeedbackOK: a column computed earlier and fed back as frozen input does not change later values); single row and all temporal-key combinations. The model is tied to aurel.over_time by comparing, cell by cell and in dict order, canonical identity tables (each real cell matched to the fresh-AurelCore reference it equals) on random scenarios: 1-7 rows, shuffled, ties, every temporal-key combination, built-in names, tagged custom variable functions and estimators (valid and invalid), pre-existing estimate columns, AurelCore keyword options, 1-3 calls, plus malformed tables (exceptions).",
+    "note": "Trusted: Lean kernel + propext/Classical.choice/Quot.sound; the hand-written model Model/Table.lean (validated by correspondence, 300 scenarios quick / 5000 thorough); what AurelCore computes inside one step is abstract (C01-C10). Two statements of the property text are false in full generality and are proven so from witnesses replayed on the real code (reported as KNOWN-FINDING): estimates requested in an earlier call than a variable do not cover that variable; a call with nothing new returns the table unsorted. Not covered by a theorem (correspondence and oracle only): successive calls that each pass the full estimates list; non-equivalence of request names (duplicates, custom names shadowing built-ins).",
 }
